@@ -170,7 +170,7 @@ pub fn check(c: &Case) -> Verdict {
     pattern.sort();
     let classes: Vec<String> = pattern.iter().map(|p| format!("extra={}", p)).chain(std::iter::once(format!("cb={}", c.cb.cli()))).chain(std::iter::once(format!("outcome={}", if known.is_empty() { "active-chain" } else { "known-finding-D7" }))).collect();
     let sample = serde_json::json!({"coin": built.coin.cli(), "tip": tip, "extras": pattern, "callback": c.cb.cli(), "outcome": if known.is_empty() { "active chain delivered" } else { "D7 prediction" }});
-    Verdict::Pass(Pass { nontrivial: interesting, key: vpmodel::hashes::fnv64(format!("{:?}|{}|{}", pattern, n, c.cb.cli()).as_bytes()), classes, known, sub_evals: 1, sample: Some(sample) })
+    Verdict::Pass(Pass { nontrivial: interesting, key: vpmodel::hashes::fnv64(format!("{:?}|{}|{}", pattern, n, c.cb.cli()).as_bytes()), classes, known, sub_evals: 1, sample: Some(sample), extra_keys: vec![] })
 }
 
 fn run(eng: &Engine, a: &Args) {
